@@ -53,6 +53,8 @@ def gen_consts(v):
         ('SA_OPCODE_SIZE', 'sizeof(((%ssandnet_packet*)0)->opcode)' % sa),
         ('SA_DMX_HEADER_SIZE', 'sizeof(%ssandnet_dmx) - ola::DMX_UNIVERSE_SIZE' % sa),
         ('SA_MAX_PORTS', 'SANDNET_MAX_PORTS'),
+        ('SA_OP_COMPRESSED_DMX', '%sSANDNET_COMPRESSED_DMX' % sa),
+        ('SA_COMPRESSED_HEADER_SIZE', 'sizeof(%ssandnet_compressed_dmx) - ola::DMX_UNIVERSE_SIZE' % sa),
         # ESP Net
         ('ES_DMX_HEAD', '%sESPNET_DMX' % es),
         ('ES_DATA_SIZE', 'sizeof(%sespnet_data_t)' % es),
@@ -103,6 +105,8 @@ def gen_consts(v):
         ('E131_MAX_MERGE_SOURCES', '%sDMPE131Inflator::MAX_MERGE_SOURCES' % ac),
         ('E131_SEQ_DIFF_NEG', '-%sDMPE131Inflator::SEQUENCE_DIFF_THRESHOLD' % ac),
         ('DMP_HEADER_SIZE', '%sDMPHeader::DMP_HEADER_SIZE' % ac),
+        ('DMP_VIRTUAL_MASK', '%sDMPHeader::VIRTUAL_MASK' % ac), ('DMP_RELATIVE_MASK', '%sDMPHeader::RELATIVE_MASK' % ac),
+        ('DMP_TYPE_MASK', '%sDMPHeader::TYPE_MASK' % ac), ('DMP_SIZE_MASK', '%sDMPHeader::SIZE_MASK' % ac),
         ('DMP_TWO_BYTES', '%sTWO_BYTES' % ac), ('DMP_RANGE_EQUAL', '%sRANGE_EQUAL' % ac),
         ('DMP_NON_RANGE', '%sNON_RANGE' % ac), ('DMP_RES_BYTES', '%sRES_BYTES' % ac),
     ]
@@ -123,7 +127,8 @@ RULE = ('frames of every length 0-512 x {random, all-equal, ramp, alternating, n
         'encodings + random bytes x start channels around 0/511/512 x receiver buffer {unallocated, short, full}; '
         'per protocol (ShowNet, SandNet, ESP Net, Pathport, Art-Net, E1.31 rev 3 and rev 2) real-node send->receive '
         'over the address space (universe/net/sub-net/port, priorities, sequence numbers incl. wrap, source names), '
-        'same and different receiver address; E1.31 stream lifecycles on one receiver (n in 1..300 frames incl. 19/20/21 '
+        'same and different receiver address; empty frames through every protocol; SandNet compressed datagrams built '
+        'from the real encoder output (whole and cut); E1.31 stream lifecycles on one receiver (n in 1..300 frames incl. 19/20/21 '
         'and sequence wrap, TerminateStream, m frames of a new stream, receiver buffer compared after every frame) and one sender streaming N in {2..512} universes round-robin for 3+ '
         'rounds to a receiver with handlers on a sample of them (both revisions), E1.31 streams with per-frame priority '
         'changes; Art-Net receivers with 2-4 output ports on the same or mixed addresses; Art-Net two-node histories on a '
@@ -142,7 +147,7 @@ ASSUMPTIONS = ['frames have at most 512 slots (DmxBuffer invariant)',
                'operator new does not fail']
 TRUSTED = ['modelled rather than verified: RunLengthEncoder::Encode/Decode, DmxBuffer::Set/SetRange/SetRangeToValue/'
            'Get(channel), ShowNetNode::BuildCompressedPacket/HandlePacket/HandleCompressedPacket (size check as '
-           'intended, see C06), SandNetNode::SendUncompressedDMX/SocketReady/HandleDMX, EspNetNode::SendEspData/'
+           'intended, see C06), SandNetNode::SendUncompressedDMX/SocketReady/HandleDMX/HandleCompressedDMX, EspNetNode::SendEspData/'
            'SocketReady/HandleData(raw), PathportNode::SendDMX/SocketReady/HandleDmxData, ArtNetNodeImpl::SendDMX/'
            'HandlePacket/HandleDataPacket (all output ports)/UpdatePortFromSource(first source), HandleReplyPacket + '
            'SendDMX subscribed-node ageing (one remote node, whole seconds), E131Node::SendDMXWithSequenceOffset + '
@@ -151,7 +156,9 @@ TRUSTED = ['modelled rather than verified: RunLengthEncoder::Encode/Decode, DmxB
            'first source, sequence window, termination), E131Node::TerminateStream/SendStreamTerminated; '
            'wire constants and struct offsets regenerated into Gen.v',
            'E1.31 receive model covers datagrams with one PDU per block (what OLA sends); blocks with several PDUs and '
-           'Art-Net opcodes other than ArtDmx are reported as unmodelled, never fed by the generator']
+           'Art-Net opcodes other than ArtDmx are reported as unmodelled, never fed by the generator',
+           'not modelled: ESP Net RLE/pairs data types (OLA never sends them), ShowNet uncompressed packets (neither sent nor '
+           'handled by OLA), KiNET (send only, received datagrams are discarded)']
 SPEC_KEYS = ['lossless', 'clean', 'spec', 'handled', 'ret']
 PROC_TIMEOUT = 1800
 INTERNAL_KEYS = []
@@ -163,7 +170,12 @@ LEVEL_TEXT = ('Coq theorems, for all frames of 1-512 slots and all addresses, ab
               'frame of a stream of any length and of a stream restarted after TerminateStream is delivered; '
               'c07_e131_stream_priorities (priority changing per frame), c07_artnet_ports (every output port registered on '
               'the address is updated), c07_artnet_unicast_delivery (subscribed-node table: no frame is suppressed while '
-              'the receiver replies within the 31 s age-out); c07_e131_multi_universe: for any interleaving of sends over any universes by one sender each handler sees '
+              'the receiver replies within the 31 s age-out); c07_e131_any_history (BOTH revisions: any interleaving of '
+              'sends over any universes, per-send priority, frames of 0-512 slots), c07_shownet_history / '
+              'c07_pathport_history / c07_partial_slotwise (after any sequence of partial frames each slot holds the last '
+              'frame that covered it, other slots untouched), c07_addressing (a datagram reaches the handler of its own '
+              'address and no other), c07_sandnet_compressed_receive, c07_empty_frames; '
+              'c07_e131_multi_universe: for any interleaving of sends over any universes by one sender each handler sees '
               'exactly the frames of its own universe (rev 3 proved; rev 2 multi-universe correspondence-tested); plus RunLengthEncoder lossless / bounded / false-iff-truncated / count bytes in 1..127 for all '
               'frames and capacities.  The models are tied to the C++ (real node objects, ASan/UBSan, datagram bytes '
               'compared) by a differential correspondence check; receivers are modelled with one handler and no '
@@ -418,6 +430,22 @@ def gen_cases(rng, tier):
                             for _ in range(6 if quick else 200)]:
             f = [rng.randrange(256) for _ in range(rng.choice([1, 2, 5, 24, 512]))]
             yield 'e1p %d %d %s %s' % (rev2, rng.choice([1, 7, 63999, rng.randrange(1, 65535)]), pl, hx(f))
+    # ---- SandNet compressed DMX (receive path only; the datagram is built from the real encoder's output)
+    sub = [f for k, f in fl if 0 < len(f) <= 400]
+    for f in (rng.sample(sub, 60) if quick else sub):
+        g, u = rng.randrange(256), rng.randrange(256)
+        hg, hu = (g, u) if rng.random() < 0.9 else ((g + 1) & 255, u)
+        e = len(py_enc(f))
+        cut = -1 if rng.random() < 0.7 else rng.randrange(0, e + 1)
+        yield 'sac %d %d %d %d %s %d %s' % (g, u, hg, hu, olds(rng, len(f)), cut, hx(f))
+    # ---- empty frames through every protocol
+    yield 'sn 1 1 none 0 - -'
+    yield 'sa 1 2 0 1 2 none -'
+    yield 'es 3 3 0102 -'
+    yield 'pp 4 4 0102 7 1 -'
+    yield 'an 1 2 3 0 3 none 0 -'
+    yield 'e1 0 5 5 0102 0 100 0 - -'
+    yield 'e1 1 5 5 0102 0 100 0 - -'
     if not quick:
         # all addresses of the small address spaces
         f = [1, 2, 3, 3, 3, 9]
@@ -452,6 +480,6 @@ def nontrivial(payload, md):
         return md.get('ret') == '1' and md.get('size') not in (None, '0')
     if op == 'dec':
         return md.get('dret') == '1' and md.get('dbuf') not in (None, 'none')
-    if op in ('e1s', 'e1m', 'an3', 'anu', 'e1p'):
+    if op in ('e1s', 'e1m', 'an3', 'anu', 'e1p', 'sac'):
         return md.get('spec') == '1'
     return md.get('handled') == '1'
